@@ -640,6 +640,11 @@ package resolver
 //@   assert at store resolver.resolveState.cutDeadline#1: value == lastret("middleware/resolver.minCut")
 //@   assert at call (*middleware/resolver.Resolver).searchCache#1: arg2 == rs.req.CheckingDisabled
 //@   assert at call (*middleware/resolver.Resolver).answer#1: arg2 == rs.req && arg3 == lastret("(*middleware/resolver.Resolver).setTags") && !lastret("(*middleware/resolver.Resolver).minimize", 1)
+//@   # C01 ("missing its ... denial proof -> SERVFAIL"): a NOERROR reply with nothing in it is a denial like any other;
+//@   # the clean message built in its place is handed to authority() - with the request, the DS chain and the zone that
+//@   # was asked - and what authority() says is what is returned
+//@   assert at call (*middleware/resolver.Resolver).authority#3: arg2 == rs.req && arg3 == m && arg4 == rs.parentDS && arg5 == rs.servers.Zone
+//@   assert at return#9: result0 == lastret("(*middleware/resolver.Resolver).authority#3") && result1 == lastret("(*middleware/resolver.Resolver).authority#3", 1)
 //@   # C07: the zone the answer is cut down to is the zone of the servers that were asked
 //@   assert at call (*middleware/resolver.Resolver).answer#1: arg5 == rs.servers.Zone
 //@   assert at call (*middleware/resolver.Resolver).authority#1: arg2 == rs.req && arg3 == lastret("(*middleware/resolver.Resolver).setTags")
